@@ -159,7 +159,7 @@ def gen_valid(rng: random.Random, kind: str | None = None, rich: bool = False) -
 # mutation classes.  Each yields (class, position, Req | bytes)
 
 CTLS = list(range(0, 32)) + [127]
-EOLS = {"lf": b"\n", "cr": b"\r", "crlflf": b"\r\n\n", "crcrlf": b"\r\r\n", "lfcr": b"\n\r", "none": b""}
+EOLS = {"lf": b"\n", "cr": b"\r", "crlflf": b"\r\n\n", "crcrlf": b"\r\r\n", "lfcr": b"\n\r", "lfcrlf": b"\n\r\n", "none": b""}
 CL_BAD = [
     b"+5", b"-0", b"-5", b"0x5", b"5,5", b"5, 5", b"5 5", b"5\t5", b"\xd9\xa5", b"\xef\xbc\x95", b"1e1", b"5.0",
     b"", b"5;", b"abc", b"5\x0b", b"\x0c5", b"99999999999999999999999999999x", b"0b101", b"5_0", b"\xc2\xb2",
@@ -274,6 +274,23 @@ def mutation_classes(rng: random.Random, base_len: Req, base_chunked: Req, base_
         r = C.copy()
         r.tend = eol
         emit("eol-" + name, "end-of-trailers", r)
+    # ---- every line ending replaced (a stream that never contains CRLF must still be rejected, not waited on)
+    for name, eol in (("lf", b"\n"), ("cr", b"\r"), ("lfcr", b"\n\r")):
+        for base, tag in ((L, "L"), (C, "C"), (N, "N")):
+            r = base.copy()
+            r.eol = eol
+            for h in r.headers:
+                h[5] = eol
+            r.end = eol
+            for c in r.chunks:
+                c[2] = eol
+                c[4] = eol
+            r.last[2] = eol
+            for t in r.trailers:
+                t[5] = eol
+            r.tend = eol
+            emit("all-eol-" + name, tag, r)
+            emit("all-eol-" + name + ":nocanary", tag, r)
     # ---- obs-fold after each line
     for base, tag in ((L, "L"), (C, "C")):
         for i in range(len(base.headers)):
